@@ -237,6 +237,8 @@ class Engine:
         self.imports = {}
         self.used_assumptions: set = set()
         self.inconsistent: list = []
+        self.site_ok: set = set()
+        self.site_bad: dict = {}
         self.paths = 0
         from . import libspec
         self.lib = libspec.Lib(self)
@@ -245,6 +247,9 @@ class Engine:
     # constants
     # ======================================================================
     def strconst(self, s):
+        if s == "." and s not in self.str_consts:
+            from .models import DOT
+            self.str_consts[s] = DOT
         if s not in self.str_consts:
             self.str_consts[s] = z3.Const(f"str_{len(self.str_consts)}_" +
                                           "".join(c if c.isalnum() else "_"
@@ -263,9 +268,10 @@ class Engine:
             if s and "/" not in s and s not in ("..", ".") and \
                     not s.startswith(("b:", "float:")):
                 # a plain file / directory name used as a path component
-                from .models import PART
+                from .models import PART, NPARTS
                 ax.append(z3.And(z3.Not(ISABS(c)), z3.Not(HASDD(c)),
-                                 PNAME(c) == c, PART(c, 0) == c))
+                                 PNAME(c) == c, PART(c, 0) == c,
+                                 NPARTS(c) == 1))
         ax.append(z3.Not(TRUTHY(NONE_U)))
         ax.extend(self.lib.axioms())
         ax.extend(self.registry_axioms())
@@ -441,8 +447,13 @@ class Engine:
                 and not key.endswith("#val") and st.next_ref is not None:
             r = z3.Const("r!hf", IntS)
             lo = 1 if shape.startswith("ref:") else 0
-            st.assume(z3.ForAll([r], z3.And(arr[r] >= lo,
-                                            arr[r] < st.next_ref)))
+            # typed heap: reference fields are never below `lo`; objects
+            # allocated so far point to objects allocated so far.  (Nothing is
+            # said about the fields of objects a callee allocates later: they
+            # are described by that callee's postcondition.)
+            st.assume(z3.ForAll([r], arr[r] >= lo))
+            st.assume(z3.ForAll([r], z3.Implies(
+                z3.And(r >= 1, r < st.next_ref), arr[r] < st.next_ref)))
         if key.endswith("#len"):
             r = z3.Const("r!hf", IntS)
             st.assume(z3.ForAll([r], arr[r] >= 0))
@@ -888,9 +899,11 @@ class Engine:
             st.assume(FRESHNAME(t) == z3.Or(fresh_parts))
             # a generated file name is a single plain component (A-STD)
             from .models import PNAME
+            from .models import NPARTS
             st.assume(z3.Implies(FRESHNAME(t), z3.And(z3.Not(ISABS(t)),
                                                       z3.Not(HASDD(t)),
-                                                      PNAME(t) == t)))
+                                                      PNAME(t) == t,
+                                                      NPARTS(t) == 1)))
             if "DSTATE" in st.ghost:
                 # a name containing a fresh uuid does not exist anywhere (A-STD)
                 par = z3.Const("par!fn", U)
@@ -1948,6 +1961,8 @@ class Engine:
         self.cur = fc
         self.cur_node = node
         self.feas_cache = {}
+        self.site_ok = set()
+        self.site_bad = {}
         fc.source_hash = h
         fc.source_path = path
         fc.lineno = node.lineno
@@ -1973,6 +1988,12 @@ class Engine:
             except PathEnd:
                 exits["cut"] += 1
             work.extend(st.alternatives)
+        for site, (q, ln) in self.site_bad.items():
+            if site not in self.site_ok:
+                self.inconsistent.append(
+                    f"call of {q} at line {ln} of {fc.qualname}: no outcome "
+                    f"of the callee's contract is feasible in the caller's "
+                    f"state")
         self.paths += npaths
         fc.exits = exits
         fc.npaths = npaths
